@@ -37,7 +37,7 @@ Finalize(st, size) ==
        ELSE IF s = size THEN st
        ELSE IF st.rest # 0 THEN [st EXCEPT !.parts[st.rest] = size - s]
        ELSE [st EXCEPT !.parts[FirstMax(st.parts)] = @ + (size - s)]
-Parse(spec, size) == Finalize(FoldLeft(LAMBDA st, pt : PartStep(st, pt, size), P0, spec), size)
+SplitParse(spec, size) == Finalize(FoldLeft(LAMBDA st, pt : PartStep(st, pt, size), P0, spec), size)
 
 \* ---- C17 clauses on an implementation result: res \in {"ok","exc"}, parts ----
 Malformed(spec) ==
@@ -52,7 +52,7 @@ F(name, ok) == IF ok THEN {} ELSE {name}
 C17arith(spec, size, res, parts) ==
   IF MustReject(spec, size) THEN F("C17.rejects", res = "exc")
   ELSE IF res # "ok" THEN {"C17.accepts"}
-  ELSE LET ref == Parse(spec, size).parts
+  ELSE LET ref == SplitParse(spec, size).parts
            base(i) == IF spec[i].k = "abs" THEN spec[i].n
                       ELSE IF spec[i].k = "pct" THEN (spec[i].n * size) \div 100 ELSE 0
            hasRest == \E i \in 1..Len(spec) : spec[i].k = "rest"
